@@ -27,7 +27,7 @@ SHARED = {
     "C10": {"c17": ["R17.1"], "c08": ["R8.1"], "c04": ["R4.2"], "c12": ["R12.2"], "c01": ["R1.2"], "c03": ["R3.3"], "c16": ["R16.1", "R16.2", "R16.3"]},
     "C11": {"c02": ["R2.5"], "c03": ["R3.1"], "c01": ["R1.10", "R1.2"]},
     "C12": {"c07": ["R7.1"], "c05": ["R5.5"]},
-    "C13": {"c03": ["R3.1", "R3.2", "R3.4", "R3.5"], "c12": ["R12.4"], "c08": ["R8.3"], "c09": ["R9.2"], "c16": ["R16.2"]},
+    "C13": {"c03": ["R3.1", "R3.2", "R3.4", "R3.5"], "c12": ["R12.4"], "c08": ["R8.3"], "c09": ["R9.2"], "c16": ["R16.2"], "c07": ["R7.1"]},
     "C14": {"c07": ["R7.5", "R7.7"], "c03": ["R3.1", "R3.6"], "c08": ["R8.1"], "c09": ["R9.4"], "c16": ["R16.2"]},
     "C15": {"c11": ["R11.1", "R11.3"], "c12": ["R12.3"]},
     "C16": {"c01": ["R1.9"], "c09": ["R9.1"], "c05": ["R5.3"]},
